@@ -24,6 +24,7 @@ structure St where
   infos : List InfoV := []
   late : List Msg := []
   fallback : Option String := some "pf"
+  live : Bool := false
 
 def nat? (toks : List String) (k : String) : Option Nat := (kv toks k).bind String.toNat?
 
@@ -91,6 +92,12 @@ def parseApplyV (s : String) : Option ApplyV :=
   | [r, rf, rs, ms] => do
     pure { result := ← parseApplyRes r, refetch := ← (splitComma rf).mapM String.toNat?,
            rejectSenders := (splitComma rs).map name?, pre := ← parseMsgs ms }
+  | [r, rf, rs, ms, cs] => do
+    let conc ← (← parseMsgs cs).mapM fun m => match m with
+      | .chunk c => some c
+      | _ => none
+    pure { result := ← parseApplyRes r, refetch := ← (splitComma rf).mapM String.toNat?,
+           rejectSenders := (splitComma rs).map name?, pre := ← parseMsgs ms, conc := conc }
   | _ => none
 
 def parseInfoV (s : String) : Option InfoV :=
@@ -121,6 +128,7 @@ def showEv : Ev → String
   | .info .echo => "I:echo"
   | .info (.info v h ht) => s!"I:{v}:{hexOrDash h}:{asInt64 ht}"
   | .arriveChunk c r => s!"c:{showName c.sender}:{c.height}:{c.format}:{c.index}:{showBody c.body}={showArr r}"
+  | .raceChunk c => s!"cc:{showName c.sender}:{c.height}:{c.format}:{c.index}:{showBody c.body}=raced"
   | .arriveSnap p s a =>
     s!"s:{showName p}:{s.height}:{s.format}:{s.chunks}:{hexOrDash s.hash}:{hexOrDash s.metadata}={a}"
 
@@ -306,9 +314,17 @@ def step (st : St) (toks : List String) : St × String :=
     match kv rest "p" with
     | some p => ({ st with fallback := if p = "-" then none else some p }, "ok")
     | none => (st, "bad-op")
+  | "s.live" :: rest =>
+    -- real fetcher goroutines: every request is answered by the peer it is sent to with the
+    -- standard bytes; arrivals are not journalled (their timing is the fetchers')
+    match nat? rest "n" with
+    | some n => if n = 0 then (st, "bad-op") else ({ q := st.q, p := st.p, live := true }, "ok")
+    | none => (st, "bad-op")
   | ["s.run"] =>
-    let sc : Script := { offers := st.offers, applies := st.applies, infos := st.infos, late := st.late,
-                         fallback := st.fallback, gap := fun _ => [], tick := 0 }
+    let sc : Script := { offers := st.offers, applies := st.applies, infos := st.infos
+                         late := if st.live then [] else st.late
+                         fallback := if st.live then some "p1" else st.fallback
+                         gap := fun _ => [], tick := 0 }
     let sy0 := { st.sy with journal := [] }
     let (r, sy', sc') := syncAny recent choose (mkEnv st.env) 200 60 none sy0 sc
     let rs := match r with
@@ -318,7 +334,9 @@ def step (st : St) (toks : List String) : St × String :=
       | .failed e => "failed:" ++ showErr e
       | .outOfFuel => "out-of-fuel"
     ({ st with sy := sy', offers := sc'.offers, applies := sc'.applies, infos := sc'.infos, late := sc'.late },
-      rs ++ " | " ++ showJournal sy'.journal)
+      rs ++ " | " ++ showJournal (if st.live then sy'.journal.filter (fun e => match e with
+        | .arriveChunk _ _ => false
+        | _ => true) else sy'.journal))
   | ["s.pool"] => (st, showPool st.sy.pool)
   | _ => (st, "bad-op")
 
